@@ -293,14 +293,14 @@ func ruleDetectAllPages(c *eng.Ctx) {
 			continue
 		}
 		for _, ci := range eng.Calls(fn, false, func(string, ssa.CallInstruction) bool { return true }) {
-			if ci.Common().StaticCallee() != detect {
+			if eng.StaticCallee(ci) != detect {
 				continue
 			}
 			key := eng.FuncName(fn) + "#detectHeaderFooter"
 			arg := ci.Common().Args[len(ci.Common().Args)-1] // the pages (after the receiver, if it is still a method)
 			fromCollect := false
 			if ex, ok := arg.(*ssa.Extract); ok && ex.Index == 0 {
-				if call, ok := ex.Tuple.(*ssa.Call); ok && call.Call.StaticCallee() == collect {
+				if call, ok := ex.Tuple.(*ssa.Call); ok && eng.StaticCallee(call) == collect {
 					fromCollect = true
 				}
 			}
@@ -342,7 +342,7 @@ func ruleDetectAllPages(c *eng.Ctx) {
 			recv := ci.Common().Args[0]
 			fromDetect := false
 			for v := range eng.Slice(recv, nil) {
-				if call, ok := v.(*ssa.Call); ok && call.Call.StaticCallee() == detect {
+				if call, ok := v.(*ssa.Call); ok && eng.StaticCallee(call) == detect {
 					fromDetect = true
 				}
 			}
@@ -550,7 +550,7 @@ func distinctKeyed(c *eng.Ctx, host *ssa.Function, coll ssa.Value, field string)
 		return false
 	}
 	if call, ok := coll.(*ssa.Call); ok {
-		if g := call.Call.StaticCallee(); g != nil && len(g.Blocks) > 0 && eng.InModule(g) {
+		if g := eng.StaticCallee(call); g != nil && len(g.Blocks) > 0 && eng.InModule(g) {
 			okAll, n := true, 0
 			for _, r := range eng.Returns(g) {
 				rv := eng.ReturnValues(r)
